@@ -459,20 +459,25 @@ def dmtx_from_csv(path, frametimes=None):
     A DesignMatrix instance
     """
     import csv
-    with open(path, newline='') as csvfile:
-        dialect = csv.Sniffer().sniff(csvfile.read())
-        csvfile.seek(0)
-        reader = csv.reader(csvfile, dialect)
-        boolfirst = True
-        design = []
-        for row in reader:
-            if boolfirst:
-                names = [row[j] for j in range(len(row))]
-                boolfirst = False
-            else:
-                design.append([row[j] for j in range(len(row))])
-    x = np.array([[float(t) for t in xr] for xr in design])
-    return(DesignMatrix(x, names, frametimes))
+
+    def read(dialect):
+        with open(path, newline='') as csvfile:
+            rows = list(csv.reader(csvfile, dialect))
+        names, design = rows[0], rows[1:]
+        x = np.array([[float(t) for t in xr] for xr in design])
+        return DesignMatrix(x, names, frametimes)
+
+    try:
+        # the dialect DesignMatrix.write_csv writes: whatever characters the
+        # names contain (quotes, delimiters, blanks...), they are read back
+        return read(csv.excel)
+    except ValueError:
+        # not a table of numbers under that dialect: the file was written by
+        # something else, guess its dialect (guessing from a file written by
+        # write_csv is not reliable when names contain quotes or delimiters)
+        with open(path, newline='') as csvfile:
+            dialect = csv.Sniffer().sniff(csvfile.read())
+        return read(dialect)
 
 
 def dmtx_light(frametimes, paradigm=None, hrf_model='canonical',
